@@ -256,8 +256,16 @@ class RaisePoint:
     validated: tuple = ()
 
 
+_SUB_CACHE = {}
+_SUB_CACHE_REPO = set()
+
+
 class MethodAnalysis:
-    def __init__(self, repo, fn: FunctionInfo, directed: bool, valuation=None, trusted_params=(), writer_methods=(), readonly_methods=()):
+    def __init__(self, repo, fn: FunctionInfo, directed: bool, valuation=None, trusted_params=(), writer_methods=(), readonly_methods=(), cname=None, depth=0, param_values=None):
+        self.param_values = dict(param_values or {})  # parameter name -> initial symbolic value (collections of validated sets)
+        self.cname = cname or (fn.cls.name if fn.cls is not None else None)
+        self.depth = depth
+        self.inlined = []  # names of private helpers whose events were spliced in
         self.repo = repo
         self.fn = fn
         self.directed = directed
@@ -293,7 +301,9 @@ class MethodAnalysis:
         for p in a.posonlyargs + a.args + a.kwonlyargs:
             if p.arg == self.selfn:
                 continue
-            if p.arg in self.val:
+            if p.arg in self.param_values:
+                env[p.arg] = self.param_values[p.arg]
+            elif p.arg in self.val:
                 env[p.arg] = Sc(f"const:{self.val[p.arg]}", const=self.val[p.arg])
             else:
                 env[p.arg] = CallerData(f"P:{p.arg}")
@@ -453,6 +463,10 @@ class MethodAnalysis:
         return ()
 
     def merge_values(self, name, a, b, ct, cf):
+        if isinstance(a, CallerData):
+            a = Sc(a.term, caller=True)
+        if isinstance(b, CallerData):
+            b = Sc(b.term, caller=True)
         if isinstance(a, Sc) and isinstance(b, Sc):
             return Sc(f"phi({a.term}|{b.term})", caller=a.caller or b.caller, source=a.source if a.source == b.source else None)
         return Opaque(f"merge of {type(a).__name__}/{type(b).__name__} for {name}")
@@ -925,6 +939,8 @@ class MethodAnalysis:
         return Opaque(f"{how}(?)")
 
     def self_call(self, m, node, args, env, conds, loops, st):
+        if m in self.writer_methods and m.startswith("_") and not m.startswith("__") and self.depth < 3 and self.inline_helper(m, node, args, conds, loops, st):
+            return Opaque(f"self.{m}() [inlined]")
         if m in self.writer_methods:
             self.raise_point(f"call of writer method self.{m}()", st, conds, loops, soft=True)
             self.raises[-1].callee = m
@@ -938,8 +954,125 @@ class MethodAnalysis:
             return Opaque(f"self.{m}()")
         return Opaque(f"self.{m}()")
 
+    # ------------------------------------------------------------------ inlining of private writer helpers
+    def inline_helper(self, m, node, args, conds, loops, st):
+        """Splice the events and raise points of private helper self.m(...) into this walk, with its parameters
+        replaced by the argument values. Returns False when the helper cannot be analysed (caller falls back to an
+        opaque call)."""
+        if self.cname is None:
+            return False
+        try:
+            ci = self.repo.get_class(self.cname)
+        except AnalysisError:
+            return False
+        callee = self.repo.find_method(ci, m)
+        if callee is None or callee is self.fn:
+            return False
+        params = callee.params[1:]
+        kwargs = {k.arg: self.ev(k.value, {}, conds, loops, st, quiet=True) for k in node.keywords if k.arg} if False else {}
+        argmap = {}
+        for i, pn in enumerate(params):
+            if i < len(args):
+                argmap[pn] = args[i]
+        for k in node.keywords:
+            if k.arg in params:
+                return False  # keyword arguments of helpers: keep the opaque treatment
+        trusted = tuple(pn for pn, a in argmap.items() if self.arg_validated(a))
+        pvals = {pn: Coll(a.valid, 0) for pn, a in argmap.items() if isinstance(a, Coll)}
+        ckey = (self.repo.digest(), callee.fq, trusted, self.directed, self.cname, tuple(sorted(self.writer_methods)), tuple(sorted((k, v.valid) for k, v in pvals.items())))
+        sub = _SUB_CACHE.get(ckey)
+        if sub is None:
+            sub = MethodAnalysis(self.repo, callee, self.directed, {}, trusted_params=trusted, writer_methods=self.writer_methods, cname=self.cname, depth=self.depth + 1, param_values=pvals)
+            sub.helper_post = self.helper_post
+            try:
+                sub.run()
+            except (Unsupported, Infeasible):
+                sub = False
+            _SUB_CACHE[ckey] = sub
+        if sub is False:
+            return False
+        self.inlined.append(m)
+        self.inlined.extend(sub.inlined)
+        self.if_counter += 1
+        tag = self.if_counter
+        loop_off = self.loop_counter + 1
+        self.loop_counter += sub.loop_counter + 1
+
+        def xterm(t):
+            for pn, a in argmap.items():
+                if isinstance(a, (Sc, CallerData)):
+                    t = t.replace(f"P:{pn}", a.term)
+            return t
+
+        def xformula(f):
+            if f[0] == "atom":
+                var, op, term = f[1], f[2], f[3]
+                if op == "in" and term.startswith("P:") and term[2:] in argmap and isinstance(argmap[term[2:]], SetV):
+                    return subst(argmap[term[2:]].f, var)
+                if op == "in" and term.startswith("P:") and term[2:] in argmap and isinstance(argmap[term[2:]], Entry) and not argmap[term[2:]].directed_dict:
+                    return subst(self.entry_set(argmap[term[2:]]).f, var)
+                return ("atom", var, op, xterm(term))
+            if f[0] in ("and", "or"):
+                return (f[0],) + tuple(xformula(g) for g in f[1:])
+            if f[0] == "not":
+                return ("not", xformula(f[1]))
+            return f
+
+        def xset(sv):
+            if sv is None:
+                return None
+            return SetV(xformula(sv.f), sv.source, sv.materialized, sv.caller, sv.entry, sv.toks)
+
+        def xsc(sc):
+            if sc is None:
+                return None
+            if sc.term.startswith("P:") and sc.term[2:] in argmap and isinstance(argmap[sc.term[2:]], Sc):
+                return argmap[sc.term[2:]]
+            if sc.term.startswith("P:") and sc.term[2:] in argmap and isinstance(argmap[sc.term[2:]], CallerData):
+                return Sc(argmap[sc.term[2:]].term, caller=True)
+            return Sc(xterm(sc.term), xset(sc.dom), (sc.loop + loop_off) if sc.loop is not None else None, sc.caller, sc.source, sc.const)
+
+        def xconds(cs):
+            out = []
+            for c in cs:
+                if c[0] == "if":
+                    out.append(("if", ("h", tag, c[1]), c[2], c[3], c[4]))
+            return tuple(conds) + tuple(out)
+
+        def xloops(ls):
+            return tuple(loops) + tuple(l + loop_off for l in ls)
+
+        items = [("e", e.order, e) for e in sub.events] + [("r", r.order, r) for r in sub.raises]
+        for kind, _, it in sorted(items, key=lambda x: x[1]):
+            if kind == "e":
+                if it.rel == "CALL":
+                    self.events.append(Event("CALL", "+", None, None, None, xconds(it.conds), xloops(it.loops), it.stmt, self.tick(), note=it.note))
+                    continue
+                toks = set()
+                for (src, i) in it.toks:
+                    nsrc = f"{xterm(src)} [in {m}#{tag}]"
+                    lst = self.consumed.setdefault(nsrc, [])
+                    while len(lst) < len(sub.consumed.get(src, [])):
+                        lst.append(sub.consumed[src][len(lst)])
+                    toks.add((nsrc, i))
+                self.events.append(Event(it.rel, it.sign, xsc(it.edge), xsc(it.node), xsc(it.key), xconds(it.conds), xloops(it.loops), it.stmt, self.tick(), extra=xformula(it.extra), note=it.note + f" [in {m}]", toks=frozenset(toks)))
+            else:
+                self.raises.append(RaisePoint(it.kind, it.stmt, xconds(it.conds), xloops(it.loops), self.tick(), it.text + f" [in {m}]", it.callee, it.validated))
+        # facts the helper leaves behind
+        for t, j in self.helper_post(m):
+            if j < len(args) and isinstance(args[j], (Sc, CallerData)):
+                self.established.add((t, args[j].term))
+                self.accepted.add(args[j].term)
+        for (t, term) in sub.established:
+            self.established.add((t, xterm(term)))
+        for term in sub.accepted:
+            self.accepted.add(xterm(term))
+        return True
+
     def arg_validated(self, a):
         src = None
+        if isinstance(a, Coll):
+            return a.valid
         if isinstance(a, Sc):
             if a.term in self.accepted:
                 return True
@@ -949,6 +1082,8 @@ class MethodAnalysis:
         if isinstance(a, SetV):
             src = a.source
         if isinstance(a, CallerData):
+            if a.term in self.accepted:
+                return True
             src = a.term
         if src is None:
             return isinstance(a, SetV)
@@ -1434,6 +1569,7 @@ class Balance:
 
     def equivalent(self, f1, f2, side_pair, loss):
         """Returns None if equivalent under the constraints, else a witness assignment (dict atom->bool)."""
+        f1, f2 = factor_common(f1, f2)
         atoms = set(atoms_of(f1)) | set(atoms_of(f2))
         erel, nrel = side_pair
         gen_e = None
@@ -1443,9 +1579,13 @@ class Balance:
             gen_n = ("atom", "e", "in", f"N{('.' + DUAL_SIDE[side]) if side else ''}[x]")
             atoms |= {gen_e, gen_n}
         atoms = sorted(atoms)
-        if len(atoms) > 16:
+        if len(atoms) > 20:
             raise Unsupported(f"{self.ma.fn.fq}: too many atoms ({len(atoms)}) in a balance formula")
+        index = {a: i for i, a in enumerate(atoms)}
+        g1, g2 = compile_formula(f1, index), compile_formula(f2, index)
         for bits in itertools.product([False, True], repeat=len(atoms)):
+            if g1(bits) == g2(bits):
+                continue
             asg = dict(zip(atoms, bits))
             if gen_e is not None and not (asg[gen_e] and asg[gen_n]):
                 continue  # losses only concern pairs of the pre-relation
@@ -1482,6 +1622,69 @@ class Balance:
                 if w is not None:
                     out.append((a, b, sign, w, fa, fb))
         return out
+
+
+def compile_formula(f, index):
+    """Compile a formula into a Python function of the tuple of atom truth values."""
+    def gen(f):
+        t = f[0]
+        if t == "true":
+            return "True"
+        if t == "false":
+            return "False"
+        if t == "atom":
+            return f"a[{index[f]}]"
+        if t == "and":
+            return "(" + " and ".join(gen(g) for g in f[1:]) + ")"
+        if t == "or":
+            return "(" + " or ".join(gen(g) for g in f[1:]) + ")"
+        if t == "not":
+            return "(not " + gen(f[1]) + ")"
+        raise ValueError(t)
+    return eval("lambda a: " + gen(f))  # noqa: S307 - expression built from our own formula tree only
+
+
+def _disjuncts(f):
+    return list(f[1:]) if f[0] == "or" else [f]
+
+
+def _conjuncts(f):
+    return list(f[1:]) if f[0] == "and" else [f]
+
+
+def factor_common(f1, f2):
+    """Drop opaque branch-condition literals that occur as a top-level conjunct of EVERY disjunct of both formulas and
+    nowhere else: C & A == C & B  iff  A == B when C shares no atom with A and B (and is satisfiable)."""
+    if f1 in (TRUE, FALSE) or f2 in (TRUE, FALSE):
+        return f1, f2
+    d1, d2 = _disjuncts(f1), _disjuncts(f2)
+    def lits(d):
+        out = set()
+        for c in _conjuncts(d):
+            if c[0] == "atom" and c[1] == "c":
+                out.add(c)
+            elif c[0] == "not" and c[1][0] == "atom" and c[1][1] == "c":
+                out.add(c)
+        return out
+    common = None
+    for d in d1 + d2:
+        l = lits(d)
+        common = l if common is None else (common & l)
+    if not common:
+        return f1, f2
+    def strip(d):
+        return And(*[c for c in _conjuncts(d) if c not in common])
+    n1 = Or(*[strip(d) for d in d1])
+    n2 = Or(*[strip(d) for d in d2])
+    # the removed literals' atoms must not occur in what remains
+    removed_atoms = {c if c[0] == "atom" else c[1] for c in common}
+    if removed_atoms & (set(atoms_of(n1)) | set(atoms_of(n2))):
+        return f1, f2
+    # and they must be jointly satisfiable (no literal together with its negation)
+    for c in common:
+        if c[0] == "atom" and ("not", c) in common:
+            return f1, f2
+    return n1, n2
 
 
 def distinct_terms_ok(asg, atoms):
